@@ -248,8 +248,13 @@ Lemma effects_diff_outside : forall c st, wf_tmp c = true ->
   Forall (fun op => op_outside (root c) op) (effects c true st).
 Proof.
   intros c st Hw. destruct (wf_tmp_split c Hw) as [H1 H2]. unfold effects.
-  apply Forall_forall. intros op Hop. apply in_map_iff in Hop. destruct Hop as [op' [E _]]. subst.
-  apply rebase_outside; assumption.
+  apply Forall_app. split.
+  - apply Forall_forall. intros op Hop. apply in_map_iff in Hop. destruct Hop as [op' [E _]]. subst.
+    apply rebase_outside; assumption.
+  - destruct (stage_eqb st Setup && true); [|constructor].
+    constructor; [|constructor; [|constructor]]; simpl.
+    + eapply under_nil_false; exact H1.
+    + split; [apply disjoint_app; assumption | eapply under_nil_false; exact H1].
 Qed.
 
 Lemma plan_diff_outside : forall c k, wf_tmp c = true ->
@@ -452,7 +457,7 @@ Lemma effects_direct_ok : forall c st,
   In st (run_stages c false) -> Forall (abs_ok c) (effects c false st).
 Proof.
   intros c st Hin. unfold run_stages in Hin. destruct (valid_pkgs c) eqn:Hv.
-  - pose proof (valid_wf c Hv) as Hwf. unfold effects.
+  - pose proof (valid_wf c Hv) as Hwf. unfold effects. rewrite andb_false_r, app_nil_r.
     apply Forall_forall. intros op Hop. apply in_map_iff in Hop. destruct Hop as [rop [E Hr]]. subst.
     right. exists rop. split; [reflexivity|].
     pose proof (rel_effects_ok c st Hwf) as H. rewrite forallb_forall in H. apply H. exact Hr.
